@@ -38,7 +38,7 @@ META = {
     'trusted_base': ['txsa/spec.py type table', 'txsa.sym interpreter',
                      'CPython ast'],
     'assumptions': ['signatures handed to the splitter are valid (balanced)'],
-    'decided': ['D1 wrapper table', 'D2 also: every basic Python type is inferred as the code of its own D-Bus type', 'D2 inferred signature is one complete '
+    'decided': ['D1 wrapper table', 'D2 also: every basic Python type is inferred as the code of its own D-Bus type; an int is INT32 exactly when it fits (boundary values)', 'D2 inferred signature is one complete '
                 'type; homogeneity flags are only ever lowered inside the '
                 'element loop', 'D3 one splitter', 'D4 no dead decision',
                 'D5 splitter tiling and bracket matching',
@@ -180,6 +180,49 @@ def run(ctx):
                             % n_flags)
     if n_ret < 8:
         raise AnalysisError('sigFromPy: only %d return paths' % n_ret)
+    # an int is inferred INT32 exactly when it fits: evaluated at the
+    # boundaries (the test may be written as a range, with bit_length, ...)
+    from ..sym import subst_fold, truth
+    n_bound = 0
+    for v in (0, 1, -1, 2 ** 31 - 1, 2 ** 31, -2 ** 31, -2 ** 31 - 1,
+              2 ** 32 - 1, -2 ** 32 + 1, 2 ** 32, 2 ** 62):
+        got = set()
+        for p in int_paths if False else [
+                q for q in paths if q.outcome == 'return' and any(
+                    kind(c) == 'call' and c[1] == 'isinstance' and pol and
+                    c[3][1] == ('builtin', 'int') for c, pol in q.cond)]:
+            feas = True
+            for c, pol in p.cond:
+                if kind(c) == 'call' and c[1] == 'isinstance':
+                    continue
+                if not contains(c, lambda x: x == pobj):
+                    continue
+                tv = truth(subst_fold(c, {pobj: C(v)}))
+                if tv is None:
+                    if contains(c, lambda x: kind(x) == 'call' and
+                                x[1] in ('getattr', 'isinstance', 'type',
+                                         'hasattr')):
+                        continue     # not a test of the VALUE
+                    feas = None
+                    break
+                if tv != pol:
+                    feas = False
+                    break
+            if feas is None:
+                got.add('?')
+            elif feas and is_const(p.value):
+                got.add(p.value[1])
+        if '?' in got or not got:
+            continue
+        n_bound += 1
+        fits = -2 ** 31 <= v < 2 ** 31
+        ok = (got == {'i'}) if fits else ('i' not in got)
+        ctx.ob('C19.D2', fi0.qualname, 'int32-exactly-when-it-fits:%d' % v,
+               ok, 'the int %d is inferred as %s; INT32 ("i") holds exactly '
+               '-2**31 .. 2**31-1 - a value outside that is inferred "i" '
+               'cannot be encoded, one inside that is not wastes nothing but '
+               'changes the wire type' % (v, sorted(got)))
+    ctx.extra['int_boundaries_evaluated'] = n_bound
     # wide integers must not be inferred as INT32
     int_paths = [p for p in paths if p.outcome == 'return' and any(
         kind(c) == 'call' and c[1] == 'isinstance' and pol and
